@@ -115,6 +115,9 @@ pub fn slot_proj(g: &Geo, vals: &Vals, blk: u32, i: usize, s: &[u8]) -> J {
     } else {
         Vec::new()
     };
+    let mut n11 = [0u8; 11];
+    n11.copy_from_slice(&s[0..11]);
+    let ck = crate::mkfs::lfn_csum(&n11);
     json!({
         "k": kind, "n": hex(&s[0..11]), "a": s[11], "c": c, "s": su,
         "zh": size >> 16, "zl": size & 0xFFFF,
@@ -122,6 +125,7 @@ pub fn slot_proj(g: &Geo, vals: &Vals, blk: u32, i: usize, s: &[u8]) -> J {
         "cc": fat_to_clock(cd, ct), "wc": fat_to_clock(wd, wt),
         "raw": hex(s), "p": is_poison,
         "q": s[0], "cs": s[13], "u": lfn_u,
+        "ck": ck,
     })
 }
 
